@@ -92,7 +92,7 @@ func xgBounds(r *Rng) *osm.Bounds {
 }
 
 func xgNode(r *Rng) *osm.Node {
-	n := &osm.Node{ID: osm.NodeID(1 + r.I64n(1<<40)), Lat: xgFloat(r), Lon: xgFloat(r), Visible: r.Chance(80)}
+	n := &osm.Node{ID: osm.NodeID(xgRef(r, 40)), Lat: xgFloat(r), Lon: xgFloat(r), Visible: r.Chance(80)}
 	if r.Chance(80) {
 		n.User, n.UserID = xgStr(r), osm.UserID(r.Intn(100000))
 		n.Version, n.ChangesetID, n.Timestamp = 1+r.Intn(50), osm.ChangesetID(r.Intn(1000000)), xgTime(r)
@@ -102,10 +102,22 @@ func xgNode(r *Rng) *osm.Node {
 	return n
 }
 
+// xgRef is a node reference: usually of today's size, sometimes beyond 2^53 (where a float64 no longer holds every
+// integer) and up to the top of int64 - ids are 64-bit integers in every OSM format.
+func xgRef(r *Rng, bits uint) int64 {
+	switch r.Intn(20) {
+	case 0:
+		return 1<<53 + 1 + 2*r.I64n(1<<20)
+	case 1:
+		return 1<<63 - 1 - r.I64n(1<<20)
+	}
+	return 1 + r.I64n(1<<bits)
+}
+
 func xgWayNodes(r *Rng, annotated bool) osm.WayNodes {
 	var ns osm.WayNodes
 	for i := r.Intn(5); i > 0; i-- {
-		wn := osm.WayNode{ID: osm.NodeID(1 + r.I64n(1<<33))}
+		wn := osm.WayNode{ID: osm.NodeID(xgRef(r, 33))}
 		if annotated {
 			wn.Version, wn.ChangesetID, wn.Lat, wn.Lon = 1+r.Intn(9), osm.ChangesetID(1+r.Intn(999)), xgFloat(r), xgFloat(r)
 		}
@@ -138,7 +150,7 @@ func xgRelation(r *Rng) *osm.Relation {
 	}
 	rel.Tags = xgTags(r)
 	for i := r.Intn(4); i > 0; i-- {
-		m := osm.Member{Type: []osm.Type{osm.TypeNode, osm.TypeWay, osm.TypeRelation}[r.Intn(3)], Ref: 1 + r.I64n(1<<33), Role: []string{"", "outer", "inner", "stop & go"}[r.Intn(4)]}
+		m := osm.Member{Type: []osm.Type{osm.TypeNode, osm.TypeWay, osm.TypeRelation}[r.Intn(3)], Ref: xgRef(r, 33), Role: []string{"", "outer", "inner", "stop & go"}[r.Intn(4)]}
 		if r.Chance(40) {
 			m.Version, m.ChangesetID, m.Lat, m.Lon = 1+r.Intn(9), osm.ChangesetID(1+r.Intn(999)), xgFloat(r), xgFloat(r)
 		}
